@@ -29,7 +29,7 @@ CHECKS = {
             "Trusted: hook H1 converts the injected clock exactly like the real one. Pre-epoch wall clocks not generated.",
             "DESIGN.md section 10 C09"),
     "C02": ("E1", "exploration",
-            "Real KeyspaceGroup + keyspace actors + ConsistencyService handlers on a paused tokio runtime over SimStorage; seeded request histories (all message kinds, both sources, arbitrary timestamps, concurrent groups, storage latency) plus a sweep of every storage-failure position x partial-success count; after every request group the actor's serialised set must equal the store rows. One case in 47 is a full cluster scenario (stub or real membership) judged by the same comparison on every node at the final quiescent point.",
+            "Real KeyspaceGroup + keyspace actors + ConsistencyService handlers on a paused tokio runtime over SimStorage; seeded request histories (all message kinds, both sources, arbitrary timestamps, concurrent groups, storage latency) plus a sweep of every storage-failure position x partial-success count; after every request group the actor's serialised set must equal the store rows. One case in 47 is a full cluster scenario (stub or real membership) judged by the same comparison on every node at the final quiescent point; one in 97 is a mass purge (more than a thousand tombstones purgeable in one pass); idle hours run the keyspace group's own hourly purge pass with failing remove_tombstones.",
             "Trusted: SimStorage (contract-conforming faults only), rkyv-validated decoding of the Serialize reply. Keyspaces created sequentially (C18 owns concurrent creation).",
             "DESIGN.md section 10 C02"),
     "C07": ("E1", "fault_enumeration",
@@ -37,11 +37,11 @@ CHECKS = {
             "Trusted: SimStorage durability model (applied write = durable). Crash points inside a storage call are on the simulated store only; real-backend torn writes below SQLite/LMDB are out of scope; peer convergence after restart is C01.",
             "DESIGN.md section 10 C07"),
     "C11": ("E1", "exploration",
-            "The real Clock actor with 2-8 concurrent callers under seeded virtual delays and wall-clock jumps; history (invoke/return sequence numbers) checked for distinctness, per-task monotonicity, real-time order and causality with registered remote stamps.",
+            "The real Clock actor with 2-8 concurrent callers under seeded virtual delays and wall-clock jumps; history (invoke/return sequence numbers) checked for distinctness, per-task monotonicity, real-time order and causality with registered remote stamps; registration floods (up to 3 000 queued registrations before a get_time). One case in 1 999 starts a real node and checks that the clock it hands out is the one its store stamps writes with.",
             "One OS thread: channel orders are sampled, real parallel schedules are not. Counter exhaustion and drift refusals are excluded by the generator (C09 covers them at the HLC level).",
             "DESIGN.md section 10 C11"),
     "C15": ("E1", "exploration",
-            "The real selector actor driven through its handle: all 13 056 two-step histories over layouts <= 3x3 enumerated, plus seeded longer histories with membership updates and cache expiry in virtual time; every selection judged against the installed layout.",
+            "The real selector actor driven through its handle: all 13 056 two-step histories over layouts <= 3x3 enumerated, plus seeded longer histories with membership updates and cache expiry in virtual time; every selection judged against the installed layout, including floods of 90-260 selections in flight while the membership changes. One case in 1 999 runs the selector inside a real single node.",
             "Trusted: the required-count table in DESIGN.md. thread_rng replaced by the seeded hook PRNG; Instant by tokio virtual time.",
             "DESIGN.md section 10 C15"),
     "C16": ("E1", "exploration",
@@ -49,7 +49,7 @@ CHECKS = {
             "chitchat is a stub in the single-node cases (harness-supplied snapshots through the same watch-channel type); in the real-cluster arm it is the vendored fork with replay patches only.",
             "DESIGN.md section 10 C16"),
     "C17": ("E1", "exploration",
-            "Real SqliteStorage (file), LmdbStorage (directory) and MemStore driven call by call next to a map reference model, with clean close+reopen, kill -9 file images between calls and LMDB map-full; full audit (iter_metadata, get, multi_get, keyspace-list envelope) after every mutating call.",
+            "Real SqliteStorage (file), LmdbStorage (directory) and MemStore driven call by call next to a map reference model, with clean close+reopen, kill -9 file images between calls, LMDB map-full, confusable keyspace names, duplicate ids in one bulk call, oversized batches and a poisoned SQLite row that fails one statement of a batch; full audit (iter_metadata, get, multi_get, keyspace-list envelope) after every mutating call.",
             "Contract-conforming call sequences only. SQLite/LMDB internals trusted (no seam below the C libraries); real worker threads, calls awaited one at a time.",
             "DESIGN.md section 10 C17"),
     "C18": ("E1", "exploration",
@@ -57,19 +57,19 @@ CHECKS = {
             "One OS thread (await-point interleavings). The handle/poller call sites are re-issued by the harness with the same statements.",
             "DESIGN.md section 10 C18"),
     "C01": ("E2", "exploration",
-            "2-5 complete nodes (real store, RPC stack over simulated TCP/HTTP2, clock, selector, membership watcher) under seeded operations and faults (holds, crash/restart, lagging/partial membership views, replayed replication messages, clock skew/jumps, storage failures/latency, cooperative delays inside repair); then constructed quiescence and the real repair path for every ordered pair in seeded order; every node's store must equal the last-writer-wins documents. One case in 8 builds every node with the public API alone (DatacakeNodeBuilder::connect + store extension) and lets the real gossip layer (vendored, virtual time, seeded) decide membership under long link holds, crashes, restarts and address moves.",
+            "2-5 complete nodes (real store, RPC stack over simulated TCP/HTTP2, clock, selector, membership watcher) under seeded operations and faults (holds, crash/restart, lagging/partial membership views, replayed replication messages, clock skew/jumps, storage failures/latency, cooperative delays inside repair); then constructed quiescence and the real repair path for every ordered pair in seeded order; every node's store must equal the last-writer-wins documents. One case in 8 builds every node with the public API alone (DatacakeNodeBuilder::connect + store extension) and lets the real gossip layer (vendored, virtual time, seeded) decide membership under long link holds, crashes, restarts and address moves. Further families: bursts of bulk calls with a partially failing bulk write or a never-held delete at the tail, a node joining a cluster whose stores hold more documents than one poll fetches, and a single-node arm that requires a new change timestamp whenever the advertised keyspace state changed.",
             "chitchat is a stub (harness membership views) except in the real-membership family; recoverable network faults only; SimStorage; all operations within one forgiveness period (validated).",
             "DESIGN.md section 10 C01"),
     "C06": ("E2", "exploration",
-            "Same cluster engine; the oracle runs inside the issuing host at the instant put/put_many/del/del_many returns and reads every node's store: Ok => the level's required number of distinct other holders (computed over the issuer's view, weakest view during the call); ConsistencyFailure => responses < required, responses <= holders, local write in place; closing exchanges replicate it everywhere.",
+            "Same cluster engine; the oracle runs inside the issuing host at the instant put/put_many/del/del_many returns and reads every node's store: Ok => the level's required number of distinct other holders (computed over the issuer's view, weakest view during the call); ConsistencyFailure => responses < required, responses <= holders, local write in place; closing exchanges replicate it everywhere. Part of the cases run on the real-membership family (public API only, real gossip layer).",
             "Holder = store holds the mutation or a newer one for every id. Overlapping identical deletes by one node are skipped (indistinguishable in the store log).",
             "DESIGN.md section 10 C06"),
     "C12": ("E2", "fault_enumeration",
-            "Per message value: fidelity through the real client/server; EVERY single-bit flip, EVERY truncation, extensions 1..16 and EVERY length below the fixed-size root with a correct checksum at DataView::using (the decision point of both directions); a seeded sample of the same damaged frames through the network as raw HTTP/2 requests and impostor-service replies.",
+            "Per message value: fidelity through the real client/server; EVERY single-bit flip, EVERY truncation, extensions 1..16 and EVERY length below the fixed-size root with a correct checksum at DataView::using (the decision point of both directions); a seeded sample of the same damaged frames through the network as raw HTTP/2 requests and impostor-service replies; valid requests and replies streamed in seeded chunks; 2/3/5-byte messages, a zero-size reply and a raw-body handler.",
             "Frames > 1 KiB: 4096 seeded flips / 1024 truncations instead of all. Corruption at the frame layer, not TCP.",
             "DESIGN.md section 10 C12"),
     "C13": ("E2", "fault_enumeration",
-            "Every add/remove history over {A,B,C} up to length 4 (quick) / 5 (thorough) enumerated completely on a running server, all four (service,message) pairs probed after every step through the real client over simulated TCP; plus seeded longer histories with concurrent probes.",
+            "Every add/remove history over {A,B,C} up to length 4 (quick) / 5 (thorough) enumerated completely on a running server, all four (service,message) pairs probed after every step through the real client over simulated TCP; plus seeded longer histories with concurrent probes; one service uses a custom path() and send_owned.",
             "Probes are sequenced after each registry change.",
             "DESIGN.md section 10 C13"),
     "C14": ("E2", "exploration",
@@ -138,7 +138,7 @@ def main():
             {"name": "E1", "path": "/verif/sim/src/e1", "serves_properties": [p for p in sorted(CHECKS) if CHECKS[p][0] == "E1"],
              "kind_free_text": "single-node engine: paused current_thread tokio, real actors/services/backends, SimStorage with fault plan, seeded interleaver, crash = dropping the runtime"},
             {"name": "E2", "path": "/verif/sim/src/e2", "serves_properties": [p for p in sorted(CHECKS) if CHECKS[p][0] == "E2"],
-             "kind_free_text": "cluster engine: patched turmoil 0.4.0 hosts running the complete store/RPC stack, harness-owned membership, storage outside the hosts"},
+             "kind_free_text": "cluster engine: patched turmoil 0.4.0 hosts running the complete store/RPC stack, harness-owned membership (or, in the real-membership family, the vendored gossip layer on virtual time with a seeded generator), storage outside the hosts"},
         ],
         "checks": checks,
         "not_applicable": na,
